@@ -246,6 +246,8 @@ def run(chk, failed):
         "the step model behind it is tied through the sequential scenarios, including the background refresh of a cached NOTFOUND",
         "the observation oracle allows lifetime + 100 ms between a storage fetch and a request served from it (the model's bound is "
         "lifetime + the time from the fetch to the store of its result)",
+        "the three *_refuted theorems of props/C05.v describe the code BEFORE the two fix: commits (old key function; expire-cache = 0 "
+        "without the bypass) and are kept as documentation; the theorems in force are about the repaired code",
     ]
 
 
